@@ -61,7 +61,7 @@ BODIES = ['valid', 'empty', 'baddigit', 'badb64', 'deepjson', 'p17', 'p1000',
           'oversize']
 TRANSP = ['polling', 'websocket', 'foo']
 JP = [None, '0', 'abc']
-SRV = ['T', 'A', 'H']      # H: the asyncio server behind the real aiohttp adapter
+SRV = ['T', 'A', 'H', 'N']  # H / N: the asyncio server behind the real aiohttp / tornado adapter
 API = ['send', 'disconnect-sid', 'disconnect-all', 'send-burst']
 API_STATES = ['none'] + STATES[1:] + ['overdue']
 PI, PT = 25, 20
@@ -304,8 +304,8 @@ def run_odd(rec, case):
             # left to answer; the application must still return normally
             if srv == 'T':
                 return
-            if srv == 'H' and method not in ('GET', 'POST', 'OPTIONS'):
-                return      # answered by aiohttp's router, not by the package
+            if srv in scen.HTTPB and method not in ('GET', 'POST', 'OPTIONS'):
+                return      # answered by the web framework, not by the package
             sim.client_gone_early = True
         elif odd in ('upgrade-header-without-connection',
                      'upgrade-header-connection-close'):
@@ -335,7 +335,11 @@ def run_odd(rec, case):
             body = b'4surprise\x1e1'
         elif odd == 'encoded-path':
             kw['path'] = '/engine.io/%2e%2e/x'
-        if srv == 'H':
+        if srv == 'N' and odd == 'huge-header':
+            # tornado drops a connection whose header block exceeds 64 KiB
+            # without an answer and without involving the package
+            return
+        if srv in scen.HTTPB:
             # the same unusual requests as HTTP/1.1 bytes, where they can be
             # expressed that way
             if odd in ('lowercase-method', 'no-host', 'chunked-body'):
@@ -356,7 +360,7 @@ def run_odd(rec, case):
             kw['body'] = body
         t = sim.request(method, q, headers, **kw)
         sim.quiesce()
-        if odd == 'client-gone-before-body' and srv == 'H':
+        if odd == 'client-gone-before-body' and srv in scen.HTTPB:
             sim.advance(0.5)    # (the client drops while a middleware awaits)
             sim.mw_delay = 0
         rec.count('request_completion')
@@ -905,7 +909,8 @@ def dispatch(rec, case):
 
 def plan(tier, seed):
     rng = gen.mkrng('c15', seed)
-    dims = [len(METHODS), len(STATES), len(BODIES), len(TRANSP), len(JP), 3]
+    dims = [len(METHODS), len(STATES), len(BODIES), len(TRANSP), len(JP),
+            len(SRV)]
     allc = [list(c) for c in itertools.product(*[range(n) for n in dims])]
     # bodies only matter for POST/PUT: keep body 0 for the other methods
     allc = [c for c in allc if METHODS[c[0]] in ('POST', 'PUT') or c[2] == 0]
@@ -943,7 +948,7 @@ def plan(tier, seed):
                         cases.append({'odd': [iodd, im, ist, isrv]})
                 if ODD[iodd] == 'client-gone-before-body' or \
                         tier == 'thorough' or rng.random() < 0.35:
-                    cases.append({'odd': [iodd, im, ist, 2]})
+                    cases.append({'odd': [iodd, im, ist, 2 + (im + ist + iodd) % 2]})
     for k in range(150000 if tier == 'thorough' else 600):
         cases.append({'seed': seed, 'i': k})
     rng.shuffle(cases)
